@@ -74,9 +74,34 @@ CHECKS = {
             "delta<=1e10 for tau=1; reduce_rho strictly decreases rho for alpha1<1. The source of every assignment to delta/rho/rhoend is re-hashed from /repo each run; the Float kernels reproduce observed updates bit for bit.",
             "Trusted: Lean kernel; standard axioms; exact arithmetic (rounding not covered); hypothesis 1/250<=alpha1<=1; table-shape clauses are searched on real diagnostic tables, not proved.",
             "6/C18"),
+    "C16": ("Lean 4 theorems about the interpolation specification (exact arithmetic, LAPACK results as hypotheses) and the factorisation flag over all Model operation sequences + exact-rational correspondence on the real Model",
+            None,
+            "Trusted: Lean kernel; standard axioms; LAPACK exactness and conditioning-proportional rounding bounds are NOT proved (observed with tolerance 64(n+1) eps cond(W) scale); PARTIAL.",
+            "6/C16"),
+    "C11": ("Lean 4 theorems (labels snapshot over all Model operation sequences; un-scaling and fit algebra in exact arithmetic) + independent exact least-squares fit through the recorded evaluations of real runs",
+            None,
+            "Trusted: Lean kernel; standard axioms; LAPACK exactness not proved (tolerance 32(n+1) eps cond posfac ...); label = true evaluation number rests on C03; PARTIAL.",
+            "6/C11"),
+    "C05": ("Lean 4 theorems (interpolation of affine residuals is exact, Gauss-Newton model exact, ratio = 1) + end-to-end search against lsq_linear/lstsq on the property's input space",
+            None,
+            "Trusted: Lean kernel; standard axioms; the end-to-end 1e-6 optimality bound and the success flag are NOT proved (convergence with rounding): search only; PARTIAL.",
+            "6/C05"),
 }
 
 PENDING_REASON = "check not built yet in this round (planned: see DESIGN.md section 6); not claimed until its theorem, correspondence and search exist"
+
+
+def explanation_of(pid):
+    """level text taken from the EXPLANATION string of harness/props/cNN.py (work packages that define one)"""
+    import importlib.util, sys
+    sys.path.insert(0, os.path.join(VERIF, "harness"))
+    path = os.path.join(VERIF, "harness", "props", pid.lower() + ".py")
+    txt = open(path).read()
+    import re
+    m = re.search(r"EXPLANATION\s*=\s*\((.*?)\)\n", txt, re.S)
+    if not m:
+        return None
+    return "".join(re.findall(r'"((?:[^"\\]|\\.)*)"', m.group(1)))
 
 
 def main():
@@ -85,6 +110,8 @@ def main():
         if pid not in CHECKS:
             continue
         tech, text, note, ref = CHECKS[pid]
+        if text is None:
+            text = explanation_of(pid) or "PARTIAL (see DESIGN.md)"
         checks.append({
             "property_id": pid,
             "quick_cmd": "./check %s --tier quick" % pid,
